@@ -42,6 +42,8 @@ func main() {
 		durMs = 100000
 	}
 	d.Durations(durMs)
+	d.Times()
+	d.Numbers()
 	run.Assume = []string{
 		"field trees: every tree with <= the stated number of nodes over the reduced leaf set x object/inline/dict/array containers x every marshaler error position x every split into <=2 With segments and call-site fields; full leaf alphabet (boundary numerics, NaN/Inf, hostile strings, failing/panicking/nil values) in 10 context classes; every string of <= the stated number of units over a 16-unit alphabet as value and as key",
 		"configurations: full product of per-part key presence x built-in / nil / no-op sub-encoders (12320) x 32 entry variants x line endings; user-supplied sub-encoders other than nil/no-op/built-in are outside the alphabet",
